@@ -2,6 +2,7 @@ import RpcVerif.Lemmas.ConnEnd
 import RpcVerif.Lemmas.Framing
 import RpcVerif.Lemmas.ServerInv
 import RpcVerif.Lemmas.Wire
+import RpcVerif.Lemmas.Link
 /-
   C01 — a successful call receives the reply computed from its own arguments.
   The end-to-end statement is assembled from four machine-checked parts:
@@ -12,8 +13,10 @@ import RpcVerif.Lemmas.Wire
     (W)  wire: header fields (sequence number, argument/reply bytes) survive encode/decode
          unchanged, under every header encoder (Props/C07);
     (F)  framing: the frames read are the frames written, for every fragmentation of the stream.
-  The product automaton K ‖ F ‖ S is not built; the link between the halves is the explicit
-  hypothesis `PeerAnswersOwn` (what (S), (W), (F) say of a correct peer).
+  `C01_reply_is_own` states the client's half under the explicit hypothesis `PeerAnswersOwn`; the
+  product L = K ‖ link ‖ S (Model/Link.lean: both automata unrestricted, a FIFO link that may lose
+  but not duplicate, reorder or invent messages — what (F) gives over a byte stream) discharges it:
+  `C01_end_to_end` has no hypothesis on the peer.
 -/
 namespace RpcVerif.Props
 open RpcVerif
@@ -39,6 +42,23 @@ theorem C01_reply_is_own {cfg : K.Cfg} {tr : List K.Ev} {s : K.State} (h : K.Acc
   rcases hr with hr | hr
   · exact K.reply_is_own h hp k c hc src hr
   · exact K.reply_is_own_empty h hp k c hc src hr
+
+/-- End to end over the product of the client automaton, a lossy FIFO link and the server automaton
+    — every interleaving of every thread of both ends, every loss pattern, every number of
+    outstanding calls: a call that holds a reply holds the handler's result for its own arguments.
+    The peer hypothesis above is a theorem here (`L.peer_answers_own`). -/
+theorem C01_end_to_end {cfg : L.Cfg} {tr : List L.Ev} {s : L.State} (h : L.Accepts (L.init cfg) tr s)
+    (k : Nat) (c : K.Call) (hc : s.k.calls k = some c) (src : Nat)
+    (hr : c.replyFrom = some (src, .ok) ∨ c.replyFrom = some (src, .empty)) : src = k :=
+  L.end_to_end h k c hc src hr
+
+/-- The product restricts neither end (its halves are runs of K and of S), the peer hypothesis holds
+    in every reachable product state, and the one guard the product adds (`answer` looks up which
+    request a response answers) never blocks. -/
+theorem C01_product_is_faithful {cfg : L.Cfg} {tr : List L.Ev} {s : L.State} (h : L.Accepts (L.init cfg) tr s) :
+    (∃ trK, K.Accepts (K.init cfg.k) trK s.k) ∧ (∃ trS, S.Accepts (S.init cfg.s) trS s.s) ∧ K.PeerAnswersOwn s.k ∧
+    (∀ p, s.s.resps[s.answered]? = some p → ∃ c, L.carrier s.carried p.seq = some c) :=
+  ⟨L.client_run h, L.server_run h, L.peer_answers_own h, fun p hp => L.answer_enabled h p hp⟩
 
 /-- (S) The server answers a sequence number only for a request it read with that number. -/
 theorem C01_server_answers_requests {cfg : S.Cfg} {tr : List S.Ev} {s : S.State} (h : S.Accepts (S.init cfg) tr s)
